@@ -232,6 +232,61 @@ def run(ctx):
                 rb.inst(k2, repo.loc(n.get("sp")), "ok: " + ok)
             else:
                 rb.violate(k2, why + " — text at or beyond the end of a Span sub-input can influence the match", repo.loc(n.get("sp")))
+    # who-may-be-called: the Input methods are the verified set; what they hand work to must be in it too (seed C08-6: an override of
+    # skip_until that builds a Span and calls the pest-derived `Span::skip_until`, whose scan is not clipped at the span's end)
+    rdel = ctx.rule("R08-DELEG", "Input's methods (defaults and overrides) call no function of pest_typed outside the Input trait, except the "
+                                 "reviewed constructors / helpers and helpers that are themselves generic over `I: Input`")
+    ALLOWED = {
+        ("next", "pest_typed::position::Position::skip"): "impl Input for Position: advances its own pos by one char (sibling-equal to pest's, R01-PRIM)",
+        ("as_position", "pest_typed::position::Position::new_unchecked"): "conversion, not a match",
+        ("span", "pest_typed::position::Position::span"): "conversion, not a match",
+    }
+    def generic_over_input(fid):
+        it = repo.item(fid)
+        return bool(it) and any(pr.get("trait") == INPUT_TRAIT for pr in it.get("preds", []))
+    def hands_over_parent(call, body):
+        lets = collect_lets(body["value"])
+        args = ([call["recv"]] if call["k"] == "mcall" else []) + list(call.get("args") or [])
+        for a in args:
+            d = descr(repo, a, lets)
+            ty = repo.tys(a["ty"]) if a.get("ty") is not None else "?"
+            bare = ty.replace("&mut ", "").replace("&", "").strip()
+            if d in ("self", "*self") or bare in ("Self", "?") or any(x in ty for x in ("Position<", "Span<", "SubInput")):
+                return True
+            if "str" in ty and ("input(self)" in d or "self.input" in d):
+                return True
+        return False
+    seen_helpers = set()
+    work = [(f, f.rsplit("::", 1)[-1], 0) for f in sorted(set(fns))]
+    while work:
+        fid, short, depth = work.pop()
+        b = repo.body(fid)
+        if b is None:
+            continue
+        for n in walk(b["value"]):
+            c = n.get("callee")
+            if not c:
+                continue
+            pth = strip_generics(c["path"])
+            if not pth.startswith("pest_typed::") or pth.startswith(M) or pth in fns:
+                continue
+            if any(m.startswith("debug_assert") for m in repo.macros(n)):
+                continue
+            k2 = "Input::%s -> %s" % (short, pth)
+            if (short, pth) in ALLOWED:
+                rdel.inst(k2, repo.loc(n.get("sp")), "ok: " + ALLOWED[(short, pth)])
+            elif not hands_over_parent(n, b):
+                rdel.inst(k2, repo.loc(n.get("sp")), "ok: helper over values that do not contain the parent string or self")
+            elif generic_over_input(pth) and depth < 3:
+                rdel.inst(k2, repo.loc(n.get("sp")), "ok: helper generic over Input (its own calls are checked too)")
+                if pth not in seen_helpers:
+                    seen_helpers.add(pth)
+                    work.append((pth, short, depth + 1))
+            else:
+                rdel.violate(k2, "delegates to %s, which is not one of Input's own methods: nothing shows that it stops at end() — text "
+                                 "beyond a Span sub-input may decide the match" % pth, repo.loc(n.get("sp")))
+    rdel.require(3, "delegations")
+
     # a Position of the parent string has no end bound: the matching primitives must not go through it
     PRIMS = ("match_string", "match_insensitive", "skip_until", "skip", "match_range", "match_char_by", "next", "chars")
     for fid in sorted(f for f in fns):
